@@ -2642,10 +2642,7 @@ def _one_info_alias_asname(self: fst.FST, static: onestatic, idx: int | None, fi
         loc_prim = None
 
     else:
-        lines = self.root._lines
-        ln, col = next_find(lines, ln, col, end_ln, end_col, 'as')  # skip the 'as'
-        ln, col = next_find(lines, ln, col + 2, end_ln, end_col, asname)  # must be there
-        loc_prim = fstloc(ln, col, ln, col + len(asname))
+        loc_prim = fstloc(end_ln, end_col - len(asname), end_ln, end_col)  # the asname is the last thing in the alias, searching for 'as' from the start can find it inside the name ('asyncio', 'has')
 
     return oneinfo(' as ', loc_insdel, loc_prim)
 
